@@ -12,8 +12,19 @@
 # You should have received a copy of the GNU Lesser General Public
 # License along with this library.  If not, see <http://www.gnu.org/licenses/>.
 
+import os.path
 import pathlib
 from types import MappingProxyType
+
+
+def _normalize(path):
+    """Path with '.' and 'name/..' components removed.
+
+    Different spellings of a file location, such as 'a.csv' and
+    'sub/../a.csv', must not make different IO objects on the same file.
+    """
+    return pathlib.Path(os.path.normpath(path))
+
 
 def is_in_root(path: pathlib.Path):
     """Returns False if the relative path with dots go beyond root"""
@@ -210,7 +221,7 @@ class IOManager:
         spec = cls(**spec_args)
         spec._manager = self
         spec._io = self.get_or_create_io(
-            io_group, pathlib.Path(path), cls=cls.io_class, **io_args)
+            io_group, _normalize(path), cls=cls.io_class, **io_args)
         try:
             spec._on_load_value()
             self.add_spec(spec.io, spec)
@@ -258,7 +269,7 @@ class IOManager:
             raise ValueError("cannot change spec")
 
     def update_path(self, io_, path):
-        path = pathlib.Path(path)
+        path = _normalize(path)
         group, path_old = key_old = self.ios.inverse[io_]
         if path == path_old:
             return
